@@ -37,7 +37,9 @@ MANIFEST = dict(
           "back through recording constructors mirroring the real registrations (same config type and default func, taken from the registry), "
           "and a sample also with the real constructors; TLC evaluates the property invariants on every observed result and compares outcome "
           "and each leaf with the model. Right level: the statement quantifies over all config paths and field positions; tests decode toy structs."),
-    note=("Also: value classes that follow from the kind of a leaf (fractional / out-of-range number into an integer option, negative into an "
+    note=("Also: several placeholders in one value (resolvable / empty / unresolvable in every position, env, property and mixed sources, "
+          "with and without literal text: an error iff any of them cannot be resolved), oneof value classes incl. values made of several "
+          "allowed words, value classes that follow from the kind of a leaf (fractional / out-of-range number into an integer option, negative into an "
           "unsigned one, integral float accepted), every value class also delivered through a placeholder, the moment an error is reported "
           "(load | first call of the factory of a lazily decoded section: rps, grpc guns) pinned, and the input channel of the CLI reader x file "
           "syntax (file .yaml/.yml/no extension/.json/.toml, stdin, ./load.yaml, ./load.json, ./config/load.yaml with decoys in the search "
